@@ -477,6 +477,37 @@ fn long_cycle_case(out: &mut CaseOut) {
     for allowance in [a0 - 9000, a0 - 3000, a0, a0 + 2000, a0 + 8000, 100000] {
         long_cycle_with(allowance.max(0), out);
     }
+    // allowances that make the counter of ONE vehicle exactly zero (tour distance == allowance):
+    // the boundary between "starts a cluster" and "is assigned to one" when cycles are rebuilt
+    let mut exact: BTreeSet<i64> = BTreeSet::new();
+    {
+        let b0 = Bridge::new(&small_instance_with(0)).expect("small instance");
+        for t in long_cycle_world(&b0).tours.values() {
+            exact.insert(t.maintenance_counter());
+        }
+        let (_, tours) = small_world(&b0);
+        for t in tours.values() {
+            exact.insert(t.maintenance_counter());
+        }
+    }
+    for allowance in exact.into_iter().filter(|&d| d > 0 && d < 5_000_000) {
+        out.count("worlds_with_a_vehicle_counter_of_exactly_zero", 1);
+        long_cycle_with(allowance, out);
+        let b = Bridge::new(&small_instance_with(allowance)).expect("small instance");
+        let (ids, tours) = small_world(&b);
+        for (name, w) in start_worlds(&b, &ids, &tours) {
+            let (f, _) = check(&b, &w);
+            for (sig, detail) in f {
+                out.viol("C15", &format!("{}.after.new_fast.exact_zero", sig), format!("allowance {} (= distance of one tour), start world {}: {}", allowance, name, detail));
+            }
+            if let Ok(w1) = guard(|| apply(&b, &w, &TOp::NewFast)) {
+                let (f, _) = check(&b, &w1);
+                for (sig, detail) in f {
+                    out.viol("C15", &format!("{}.after.new_fast.exact_zero", sig), format!("allowance {}, start world {} rebuilt: {}", allowance, name, detail));
+                }
+            }
+        }
+    }
 }
 
 fn long_cycle_world(b: &Bridge) -> World {
@@ -623,8 +654,29 @@ fn random_case(ctx: &Ctx, idx: u64, out: &mut CaseOut) {
     opts.force_slots = true;
     opts.rotation_rich = rng.chance(1, 2);
     let tag = format!("r{}c{}", ctx.seed, idx);
-    let input = gen::generate(&mut rng, &opts, &tag);
-    let b = Bridge::new(&input).expect("bridge");
+    let mut input = gen::generate(&mut rng, &opts, &tag);
+    let mut b = Bridge::new(&input).expect("bridge");
+    // a quarter of the instances: the allowance equals the distance of one maintenance-visiting
+    // tour of the start solution, so that this vehicle's counter is exactly zero
+    if rng.chance(1, 4) {
+        let net = b.net.clone();
+        if let Ok(start) = guard(|| MinCostFlowSolver::initialize(net.clone()).solve()) {
+            let allowance = b.inst.max_dist as i64;
+            let cands: Vec<i64> = start
+                .vehicles_iter_all()
+                .filter_map(|v| start.tour_of(v).ok())
+                .filter(|t| t.visits_maintenance())
+                .map(|t| t.maintenance_counter() + allowance)
+                .filter(|&d| d > 0 && d < 5_000_000)
+                .collect();
+            if !cands.is_empty() {
+                let d = *rng.pick(&cands);
+                input["parameters"]["maintenance"] = json!({ "maximalDistance": d });
+                b = Bridge::new(&input).expect("bridge");
+                out.count("instances_with_allowance_equal_to_a_tour_distance", 1);
+            }
+        }
+    }
     let inst = &b.inst;
     out.count(&format!("profile.{}", profile.name()), 1);
 
